@@ -32,6 +32,9 @@ pub fn templates() -> Vec<Template> {
         t("fact/map-value", "fact", "p({\"k\": {a}})", &["a"], &[], &[]),
         t("fact/map-key", "fact", "p({{a}: 1})", &["a"], &[], &["a"]),
         t("fact/nested-two-levels", "fact", "p([{\"k\": [{a}]}])", &["a"], &[], &[]),
+        t("fact/map-param-key-and-param-value", "fact", "p({{a}: {b}})", &["a", "b"], &[], &["a"]),
+        t("fact/map-param-key-nested-param-value", "fact", "p({{a}: [1, {b}], \"k\": {{c}}})", &["a", "b", "c"], &[], &["a"]),
+        t("rule/body-map-param-key-and-param-value", "rule", "r($x) <- q($x, {{a}: {b}}), {{a}: {b}}.length() > 0", &["a", "b"], &[], &["a"]),
         t("fact/two-params-one-twice", "fact", "p({a}, {b}, {a})", &["a", "b"], &[], &[]),
         t("rule/head", "rule", "r({a}) <- q($x)", &["a"], &[], &[]),
         t("rule/body", "rule", "r($x) <- q($x, {a})", &["a"], &[], &[]),
@@ -190,6 +193,18 @@ fn realize(item: &Item) -> Result<Item, String> {
     .unwrap_or_else(|p| Err(format!("PANIC {p}")))
 }
 
+/// the same item rebuilt through the public constructors (Fact::new / Rule::new), which collect the parameter
+/// names themselves instead of taking the parser's list
+fn reconstruct(item: &Item) -> Item {
+    let rule = |r: &b::Rule| b::Rule::new(r.head.clone(), r.body.clone(), r.expressions.clone(), r.scopes.clone());
+    match item {
+        Item::Fact(f) => Item::Fact(b::Fact::new(f.predicate.name.clone(), f.predicate.terms.clone())),
+        Item::Rule(r) => Item::Rule(rule(r)),
+        Item::Check(c) => Item::Check(b::Check { queries: c.queries.iter().map(rule).collect(), kind: c.kind.clone() }),
+        Item::Policy(p) => Item::Policy(b::Policy { queries: p.queries.iter().map(rule).collect(), kind: p.kind.clone() }),
+    }
+}
+
 fn parse_item(kind: &str, src: &str) -> Result<Item, String> {
     match kind {
         "fact" => b::Fact::try_from(src).map(Item::Fact).map_err(|e| format!("{e:?}")),
@@ -262,7 +277,8 @@ pub fn run(tier: Tier) {
     let partial = AtomicUsize::new(0);
     let samples_out = Samples::new(6);
 
-    temps.par_iter().for_each(|t| {
+    let temps_paths: Vec<(&Template, &str)> = temps.iter().flat_map(|t| [(t, "parsed"), (t, "constructed")]).collect();
+    temps_paths.par_iter().for_each(|(t, path)| {
         let base = match parse_item(t.kind, t.src) {
             Ok(i) => i,
             Err(e) => {
@@ -270,6 +286,7 @@ pub fn run(tier: Tier) {
                 return;
             }
         };
+        let base = if *path == "constructed" { reconstruct(&base) } else { base };
         let n_t = t.term_params.len();
         let n_s = t.scope_params.len();
         // value assignments: every value for the first parameter, a fixed second value for the others
@@ -319,7 +336,7 @@ pub fn run(tier: Tier) {
                                 }
                             }
                         }
-                        let case = || json!({"template": t.src, "value": vname, "key": kname, "setter": format!("{how:?}"), "bound_mask": mask, "setter_errors": setter_errors});
+                        let case = || json!({"template": t.src, "item_obtained_by": path, "value": vname, "key": kname, "setter": format!("{how:?}"), "bound_mask": mask, "setter_errors": setter_errors});
                         let vclass = value_class(vname);
                         if !setter_errors.is_empty() {
                             // a strict / lenient setter refusing a parameter that exists in the item
